@@ -1,6 +1,7 @@
 package lib
 
 import (
+	"fmt"
 	"reflect"
 	"time"
 	"unicode/utf8"
@@ -599,4 +600,80 @@ func EditInPlace(f *fit.File, seed uint64) (edited int) {
 		}
 	}
 	return edited
+}
+
+// ShareArrays rebuilds every array field (slice of numbers) of every message of f's container
+// as a window of a larger buffer: the slice keeps its elements and length but gets spare
+// capacity, and the memory right behind it holds marker values, as if another File's field
+// lived there. It returns a function that reports whether any marker was overwritten.
+func ShareArrays(f *fit.File) (check func() string) {
+	type guard struct {
+		tail reflect.Value // the marker elements behind the field's length
+		name string
+	}
+	var guards []guard
+	cont := Container(f, byte(f.FileId.Type))
+	if cont == nil {
+		return func() string { return "" }
+	}
+	cv := reflect.ValueOf(cont).Elem()
+	mark := func(v reflect.Value, i int) {
+		switch v.Kind() {
+		case reflect.Uint8, reflect.Uint16, reflect.Uint32, reflect.Uint64:
+			v.SetUint(uint64(0x11 + i))
+		case reflect.Int8, reflect.Int16, reflect.Int32, reflect.Int64:
+			v.SetInt(int64(0x11 + i))
+		case reflect.Float32, reflect.Float64:
+			v.SetFloat(float64(3 + i))
+		}
+	}
+	var doMsg func(mv reflect.Value, where string)
+	doMsg = func(mv reflect.Value, where string) {
+		for i := 0; i < mv.NumField(); i++ {
+			fv := mv.Field(i)
+			if fv.Kind() != reflect.Slice || fv.IsNil() || fv.Len() == 0 {
+				continue
+			}
+			switch fv.Type().Elem().Kind() {
+			case reflect.Uint8, reflect.Uint16, reflect.Uint32, reflect.Uint64, reflect.Int8, reflect.Int16, reflect.Int32, reflect.Int64, reflect.Float32, reflect.Float64:
+			default:
+				continue
+			}
+			n := fv.Len()
+			buf := reflect.MakeSlice(fv.Type(), n+8, n+8)
+			reflect.Copy(buf, fv)
+			for k := 0; k < 8; k++ {
+				mark(buf.Index(n+k), k)
+			}
+			fv.Set(buf.Slice3(0, n, n+8))
+			guards = append(guards, guard{buf.Slice(n, n+8), fmt.Sprintf("%s.%s", where, mv.Type().Field(i).Name)})
+		}
+	}
+	for j := 0; j < cv.NumField(); j++ {
+		fv := cv.Field(j)
+		switch fv.Kind() {
+		case reflect.Ptr:
+			if !fv.IsNil() && fv.Elem().Kind() == reflect.Struct {
+				doMsg(fv.Elem(), cv.Type().Field(j).Name)
+			}
+		case reflect.Slice:
+			for k := 0; k < fv.Len(); k++ {
+				if mp := fv.Index(k); mp.Kind() == reflect.Ptr && !mp.IsNil() {
+					doMsg(mp.Elem(), fmt.Sprintf("%s[%d]", cv.Type().Field(j).Name, k))
+				}
+			}
+		}
+	}
+	return func() string {
+		for _, g := range guards {
+			fresh := reflect.MakeSlice(g.tail.Type(), 8, 8)
+			for k := 0; k < 8; k++ {
+				mark(fresh.Index(k), k)
+			}
+			if !reflect.DeepEqual(g.tail.Interface(), fresh.Interface()) {
+				return fmt.Sprintf("%s: the memory behind the field's length was %v, is now %v", g.name, fresh.Interface(), g.tail.Interface())
+			}
+		}
+		return ""
+	}
 }
